@@ -428,8 +428,9 @@ TryRecord(s, chain, r) ==
              s1 == [s EXCEPT !.ch[chain].lon = r.n, !.ch[chain].lohc = s.h, !.ch[chain].lohe = r.ev.eh,
                              !.ch[chain].votes = (@ \ {r}) \cup {r1}]
              hr == Handle(s1, chain, r.ev)
-         IN IF hr.panic THEN [s |-> s1, panic |-> TRUE]
-            ELSE [s |-> IF hr.ok THEN hr.s ELSE s1, panic |-> FALSE]
+         \* a panicking handler fails that event alone (the handler call recovers); before 02b806a it halted the chain
+         IN IF hr.panic /\ "HandlerPanicsHalt" \in Dev THEN [s |-> s1, panic |-> TRUE]
+            ELSE [s |-> IF hr.ok /\ ~hr.panic THEN hr.s ELSE s1, panic |-> FALSE]
 
 \* eventVoteRecordTally: nonces ascending; inside a nonce in store order (r.ord)
 Tally(s, chain) ==
@@ -538,6 +539,8 @@ Step(s, a) ==
     CASE a.k = "Begin"    -> [out |-> "ok", s |-> BeginBlock(s, a.dt), id |-> 0]
       [] a.k = "End"      -> LET r == EndBlockHub(s) IN [out |-> IF r.panic THEN "panic" ELSE "ok", s |-> r.s, id |-> 0]
       [] a.k = "Send"     -> MsgSend(s, a)
+      [] a.k = "BulkSend" -> LET F[k \in 0..a.n] == IF k = 0 THEN Ok(s) ELSE IF F[k - 1].out # "ok" THEN F[k - 1] ELSE MsgSend(F[k - 1].s, a)
+                             IN F[a.n]
       [] a.k = "Cancel"   -> MsgCancel(s, a)
       [] a.k = "ReqBatch" -> MsgReqBatch(s, a)
       [] a.k = "Claim"    -> MsgClaim(s, a)
